@@ -1,5 +1,5 @@
 #!/usr/bin/env python3
-"""tools/run_seeded.py [--only ID,ID] [--tier quick] [--ctest] [--seed N]
+"""tools/run_seeded.py [--only ID,ID] [--tier quick] [--ctest] [--seed N] [--results FILE] [--merge F1,F2,...]
 Runs the checks against every seeded change in /verif/seeded/<id>/: the change is applied to a scratch copy of /repo's sources (never to /repo),
 the check of its property (plus `also_checks` of meta.json) is run with VERIF_REPO/VERIF_OUT pointing at scratch directories, and the outcome
 (exit code, violation keys) is written to seeded/RESULTS.json and seeded/RESULTS.md.  --ctest additionally builds the changed tree with cmake in a
@@ -12,8 +12,13 @@ def arg(name, d=None):
 def main():
     only = arg("--only"); only = set(only.split(",")) if only else None
     tier = arg("--tier", "quick"); seed = arg("--seed", "1")
-    res_path = os.path.join(SEEDED, "RESULTS.json")
+    res_path = arg("--results", os.path.join(SEEDED, "RESULTS.json"))      # parallel streams write to files of their own; --merge f1,f2,... folds them into RESULTS.json
     results = json.load(open(res_path)) if os.path.exists(res_path) else {}
+    if arg("--merge"):
+        for f in arg("--merge").split(","):
+            if os.path.exists(f): results.update(json.load(open(f)))
+        json.dump(results, open(res_path, "w"), indent=1, sort_keys=True)
+        only = set()
     ids = sorted(d for d in os.listdir(SEEDED) if os.path.isfile(os.path.join(SEEDED, d, "meta.json")))
     for sid in ids:
         if only and sid not in only: continue
@@ -22,7 +27,8 @@ def main():
         try:
             shutil.copytree("/repo/src", os.path.join(scr, "src")); shutil.copytree("/repo/include", os.path.join(scr, "include"))
             p = subprocess.run(["patch", "-p1", "-s", "-i", os.path.join(SEEDED, sid, "patch.diff")], cwd=scr, capture_output=True, text=True)
-            entry = {"property": meta["property"], "tier": tier, "seed": int(seed), "repo_head": subprocess.run(["git", "-C", "/repo", "rev-parse", "--short", "HEAD"], capture_output=True, text=True).stdout.strip(), "checks": {}}
+            entry = {"property": meta["property"], "tier": tier, "seed": int(seed), "repo_head": subprocess.run(["git", "-C", "/repo", "rev-parse", "--short", "HEAD"], capture_output=True, text=True).stdout.strip(),
+                     "verif_head": subprocess.run(["git", "-C", VERIF, "rev-parse", "--short", "HEAD"], capture_output=True, text=True).stdout.strip(), "checks": {}}
             if p.returncode != 0:
                 entry["error"] = "patch does not apply: " + (p.stdout + p.stderr)[-300:]
             else:
